@@ -1454,8 +1454,10 @@ class ComponentSpecification(experiment.model.interface.InternalRepresentationAt
                 else:
                     continue
                 replacement = ':'.join((replacement, d.method))
-                pattern = re.compile(r'\b' + re.escape(original_reference) + r'\b')
-                arguments = re.sub(pattern, replacement, arguments)
+                # VV: only replace whole references: `ab:ref` (the relative form of stage1.ab:ref) must not be replaced
+                # inside `stage0.ab:ref` - the two references have the same length so their order is arbitrary
+                pattern = experiment.model.frontends.flowir.pattern_whole_reference(original_reference)
+                arguments = pattern.sub(lambda m, replacement=replacement: replacement, arguments)
 
             blueprint_name = self.identification.componentName.rstrip('0123456789')
 
